@@ -69,8 +69,11 @@ class Symx:
                 res = symx.explore_parallel(self.fn, procs=NPROC, depth=self.parallel_depth,
                                             budget_s=self.budget_s, known_keys=known_keys)
             else:
-                sk = set(known_keys)
-                res = symx.explore(self.fn, budget_s=self.budget_s, stop_on=lambda rec: rec["key"] not in sk)
+                import fnmatch
+
+                sk = list(known_keys)
+                res = symx.explore(self.fn, budget_s=self.budget_s,
+                                   stop_on=lambda rec: not any(fnmatch.fnmatchcase(rec["key"], k) for k in sk))
         except Exception:  # noqa
             r.errors.append(traceback.format_exc()[-3000:])
             r.wall_s = time.time() - t0
